@@ -165,9 +165,18 @@ mod harness {
         let window = any_window(last_n);
         let w0 = window;
         let ls = LastState::new(p);
-        let ps = ProveState::new_from_request(ProveRequest::new(ls.clone(), Default::default()), Vec::new(), window);
+        // reorg headers of the parent state (a fork switch happened below it): 0..2 arbitrary headers
+        let nre: usize = kani::any(); kani::assume(nre <= 2);
+        let mut reorg = Vec::new(); let mut i = 0; while i < 2 { if i < nre { reorg.push(any_hv()); } i += 1; }
+        let r0 = reorg;
+        let ps = ProveState::new_from_request(ProveRequest::new(ls.clone(), Default::default()), reorg, window);
         let c = any_vh();
         let ch = ps.new_child(LastState::new(c), last_n);
+        // a child of a state that sits on a fork switch still sits on it: a peer whose state is COPIED from the child (get_last_state_proof) must drop
+        // its cached filter hashes of the abandoned branch too (Peers::update_prove_state decides by these headers)
+        let r1 = ch.get_reorg_last_headers();
+        assert!(r1.len() == r0.len, "SPEC child state: the reorg headers of the parent state are not inherited");
+        let mut i = 0; while i < 2 { if i < r0.len { assert!(r1[i] == r0.buf[i], "SPEC child state: the reorg headers of the parent state are not inherited"); } i += 1; }
         let w = ch.get_last_headers();
         assert!(w.len() <= last_n && w.len() >= 1, "SPEC window: length not within 1..=last-N");
         assert!(w[w.len() - 1] == p.header, "SPEC window: newest entry is not the old last header");
